@@ -3,7 +3,7 @@ import Sentinel.Model.Rules
 /-! Driver for C13: `model` = the rule managers of `Sentinel.Model.Rules`, `spec` = "filter valid of the latest
 load per resource", recomputed from the op history (`latest`, `buildList`, the probe functions).
 
-Ops (`<mod>` ∈ flow|iso|hot|cb|sys|out; a rule is `-` (nil) or comma-separated fields, `_` = empty string):
+Ops (`<mod>` ∈ flow|iso|hot|cb|sys|out; a rule is `-` (nil) or comma-separated fields, `_` = empty string; the flow / breaker `Threshold` is the exact integer number of 2^-60 units, other floats are halves):
 ```
 load <mod> <n> <rule>*n            => changed|unchanged|err|changed-err
 loadres <mod> <res> <n> <rule>*n   => (same)          (out: n ≤ 1, n = 0 is the nil rule)
@@ -11,6 +11,7 @@ clear <mod>                        => ok|err
 clearres <mod> <res>               => ok|err
 get <mod>                          => [rule,…] sorted
 getres <mod> <res>                 => [rule,…] in order      (flow|iso|hot|cb)
+ctrlhist <mod> <res>               => controller identities, stable over the case (per resource, first-shown order); spec: ?
 ctrlids <mod> <res>                => identity classes of the controller objects in force, first-appearance order (flow|hot|cb)
 probe flow|iso <res> <batch> | probe cb <res> | probe sys    => pass|block|?
 probeseq flow <res> <batch>*       => one letter per request at one instant: p|b|w (w = had to sleep, sequence stops) or ?
@@ -27,13 +28,13 @@ def ustr (s : String) : String := if s = "" then "_" else s
 
 def parseFlow (s : String) : Option FlowRule :=
   match s.splitOn "," with
-  | [res, tcs, cb, th2, rel, ref, maxQ, wp, cf, st, lm, hm, ml, mh, id] => do
-    some { id := str id, res := str res, tcs := ← tcs.toInt?, cb := ← cb.toInt?, th2 := ← th2.toInt?, rel := ← rel.toInt?, ref := str ref,
+  | [res, tcs, cb, th, rel, ref, maxQ, wp, cf, st, lm, hm, ml, mh, id] => do
+    some { id := str id, res := str res, tcs := ← tcs.toInt?, cb := ← cb.toInt?, th := ← th.toInt?, rel := ← rel.toInt?, ref := str ref,
            maxQ := ← maxQ.toNat?, wuPeriod := ← wp.toNat?, wuCf := ← cf.toNat?, statMs := ← st.toNat?,
            lowMem := ← lm.toInt?, highMem := ← hm.toInt?, memLow := ← ml.toInt?, memHigh := ← mh.toInt? }
   | _ => none
 def showFlow (r : FlowRule) : String :=
-  s!"{ustr r.res},{r.tcs},{r.cb},{r.th2},{r.rel},{ustr r.ref},{r.maxQ},{r.wuPeriod},{r.wuCf},{r.statMs},{r.lowMem},{r.highMem},{r.memLow},{r.memHigh},{ustr r.id}"
+  s!"{ustr r.res},{r.tcs},{r.cb},{r.th},{r.rel},{ustr r.ref},{r.maxQ},{r.wuPeriod},{r.wuCf},{r.statMs},{r.lowMem},{r.highMem},{r.memLow},{r.memHigh},{ustr r.id}"
 
 def parseIso (s : String) : Option IsoRule :=
   match s.splitOn "," with
@@ -52,12 +53,12 @@ def showHot (r : HotRule) : String :=
 
 def parseCb (s : String) : Option CbRule :=
   match s.splitOn "," with
-  | [res, st, rt, mr, si, bk, mx, th2, pn, id] => do
+  | [res, st, rt, mr, si, bk, mx, th, pn, id] => do
     some { id := str id, res := str res, strategy := ← st.toNat?, retryMs := ← rt.toNat?, minReq := ← mr.toNat?, statMs := ← si.toNat?,
-           buckets := ← bk.toNat?, maxRt := ← mx.toNat?, th2 := ← th2.toInt?, probe := ← pn.toNat? }
+           buckets := ← bk.toNat?, maxRt := ← mx.toNat?, th := ← th.toInt?, probe := ← pn.toNat? }
   | _ => none
 def showCb (r : CbRule) : String :=
-  s!"{ustr r.res},{r.strategy},{r.retryMs},{r.minReq},{r.statMs},{r.buckets},{r.maxRt},{r.th2},{r.probe},{ustr r.id}"
+  s!"{ustr r.res},{r.strategy},{r.retryMs},{r.minReq},{r.statMs},{r.buckets},{r.maxRt},{r.th},{r.probe},{ustr r.id}"
 
 def parseSys (s : String) : Option SysRule :=
   match s.splitOn "," with
@@ -92,6 +93,7 @@ structure Slot (R : Type) where
   shw : R → String
   st : MState R := MState.init
   c : CState R := CState.init                      -- model side: controller identities
+  reg : List (String × Nat) := []                  -- model side: (resource, controller id) in the order `ctrlhist` first showed them
   L : String → List (Option R) := fun _ => []     -- spec side
   Lkeys : List String := []
   seen : List R := []                             -- spec side: every rule object handed over in this case
@@ -120,9 +122,9 @@ def claimRes (sl : Slot R) (res : String) (rules : List (Option R)) : String :=
 /-- inside the region of `stale-equal-rule`: a rule in force for `k` is equal, for the module's own equality, to a
     different rule object handed over earlier (whose controller may have been kept) -/
 def stale (sl : Slot R) (k : String) : Bool :=
-  !sl.M.pubValid && (sl.specEnf k).any fun r => sl.seen.any fun o =>
+  (sl.specEnf k).any fun r => sl.seen.any fun o =>
     let o' := if built sl.M k o then sl.M.norm o else o
-    decide (sl.M.canon o' = sl.M.canon r) && decide (o' ≠ r)
+    sl.M.sim o' r && decide (o' ≠ r)
 
 /-- inside the region of `cb-getter-reports-unbuilt`: some valid rule handed over for `k` got no breaker -/
 def unbuilt (sl : Slot R) (k : String) : Bool :=
@@ -130,7 +132,7 @@ def unbuilt (sl : Slot R) (k : String) : Bool :=
 
 def wrapGet (sl : Slot R) (ks : List String) (v : String) : String :=
   if ks.any (unbuilt sl) then "?known:cb-getter-reports-unbuilt:" ++ v
-  else if ks.any (stale sl) then "?known:stale-equal-rule:" ++ v else v
+  else if !sl.M.pubValid && ks.any (stale sl) then "?known:stale-equal-rule:" ++ v else v
 
 def okOrErr (o : Outcome) : String := if o == .err || o == .changedErr || o == .panic then "err" else "ok"
 
@@ -176,6 +178,15 @@ def Slot.handle (sl : Slot R) (spec : Bool) (ts : List String) : Option (Slot R 
     let res := str res
     let ids := if spec then List.range (sl.specEnf res).length else canonIds ((sl.c.ctrl res).map Prod.snd)
     (sl, some (showList (ids.map toString)))
+  | ["ctrlhist", _, res] => some <|
+    -- identities that are stable over the whole case (first-shown order): tells a kept controller from a rebuilt one.
+    -- Which controllers are kept is C14's property: the spec makes no claim, the line ties model and code.
+    if spec then (sl, some "?") else
+    let res := str res
+    let ids := (sl.c.ctrl res).map Prod.snd
+    let reg := ids.foldl (fun r i => if r.contains (res, i) then r else r ++ [(res, i)]) sl.reg
+    let mine := (reg.filter (·.1 == res)).map Prod.snd
+    ({ sl with reg := reg }, some (showList (ids.map fun i => toString (mine.idxOf i))))
   | ["getres", _, res] => some <|
     let res := str res
     if spec then
@@ -184,8 +195,13 @@ def Slot.handle (sl : Slot R) (spec : Bool) (ts : List String) : Option (Slot R 
     else (sl, some (showList ((getRes sl.st res).map sl.shw)))
   | _ => none
 
-/-- the rules a probe on `res` meets -/
-def Slot.enfOf (sl : Slot R) (spec : Bool) (res : String) : List R := if spec then sl.specEnf res else sl.st.enf res
+/-- the rules a probe on `res` meets: the rule objects the controllers in force are bound to -/
+def Slot.enfOf (sl : Slot R) (spec : Bool) (res : String) : List R := if spec then sl.specEnf res else sl.st.bound res
+
+/-- a probe result, flagged when the resource is inside the region of `stale-equal-rule` (a kept controller may enforce
+    the old threshold) -/
+def Slot.wrapProbe (sl : Slot R) (spec : Bool) (res : String) (v : String) : String :=
+  if spec && stale sl res then "?known:stale-equal-rule:" ++ v else v
 
 end
 
@@ -278,17 +294,17 @@ def step (spec : Bool) (s : St) (ts : List String) (_ : String) : St × Option S
   match ts with
   | ["probe", "flow", res, b] =>
     match b.toNat? with
-    | some b => (s, some (match flowProbe (s.flow.enfOf spec (str res)) b with | some x => pb x | none => "?"))
+    | some b => (s, some (s.flow.wrapProbe spec (str res) (match flowProbe (s.flow.enfOf spec (str res)) b with | some x => pb x | none => "?")))
     | none => (s, some "bad-op")
   | "probeseq" :: "flow" :: res :: bs =>
     match bs.mapM String.toNat? with
-    | some bs => (s, some (match flowSeq (s.flow.enfOf spec (str res)) bs with | some x => x | none => "?"))
+    | some bs => (s, some (s.flow.wrapProbe spec (str res) (match flowSeq (s.flow.enfOf spec (str res)) bs with | some x => x | none => "?")))
     | none => (s, some "bad-op")
   | ["probe", "iso", res, b] =>
     match b.toNat? with
     | some b => (s, some (pb (isoProbe (s.iso.enfOf spec (str res)) b)))
     | none => (s, some "bad-op")
-  | ["probe", "cb", res] => (s, some (pb (cbProbe (s.cb.enfOf spec (str res)))))
+  | ["probe", "cb", res] => (s, some (s.cb.wrapProbe spec (str res) (pb (cbProbe (s.cb.enfOf spec (str res))))))
   | _ :: "flow" :: _ => match s.flow.handle spec ts with
       | some (sl, r) => ({ s with flow := sl }, r) | none => (s, some "bad-op")
   | _ :: "iso" :: _ => match s.iso.handle spec ts with
